@@ -151,6 +151,27 @@ class _Returns(ast.NodeTransformer):
         return out
 
 
+def _prune(stmts):
+    """Drop branches decided by a constant test (a flag parameter bound to a literal at the call)."""
+    out = []
+    for st in stmts:
+        for field in ("body", "orelse", "finalbody"):
+            sub = getattr(st, field, None)
+            if isinstance(sub, list) and sub and isinstance(sub[0], ast.stmt):
+                setattr(st, field, _prune(sub) or ([ast.copy_location(ast.Pass(), st)] if field == "body" else []))
+        if isinstance(st, ast.If):
+            test = st.test
+            neg = False
+            while isinstance(test, ast.UnaryOp) and isinstance(test.op, ast.Not):
+                test, neg = test.operand, not neg
+            if isinstance(test, ast.Constant):
+                taken = bool(test.value) != neg
+                out.extend(st.body if taken else st.orelse)
+                continue
+        out.append(st)
+    return out
+
+
 def _copy_node(node):
     """Deep copy without the analysis caches hung on the node."""
     saved = node.__dict__.pop("_sa_cfg", None)
@@ -202,6 +223,7 @@ def _build_block(helper, call, form, target, caller_locals):
             mapping[name] = name + "_inl"
     body = [s for s in hnode.body]
     body = [_Rename(mapping).visit(s) for s in body]
+    body = _prune(body)
     new_body = []
     tr = _Returns(form, target)
     for s in body:
@@ -263,12 +285,7 @@ def _expr_pass(repo, finfo, fn, keep, used) -> bool:
             changed = True
             return ast.copy_location(expr, node)
 
-        def visit_FunctionDef(self, node):
-            return self.generic_visit(node) if node is fn else node
-
-        def visit_Lambda(self, node):
-            return node
-
+    # predicates written as lambdas / nested functions read the same helpers: descend into them
     Sub().visit(fn)
     return changed
 
